@@ -2,7 +2,8 @@
 C14 — derivatives, shifts, conversions and composition are exact.
 Property theorems about `Model/SigCalc.lean`.
 -/
-import SageoptModel.Model.SigCalc
+import SageoptModel.Lemmas.SigCalcComp
+import SageoptModel.Lemmas.SigCalcReal
 
 namespace Sageopt.Props.C14
 open Sageopt.Sig
@@ -10,5 +11,218 @@ open Sageopt.Sig
 /-- the gradient has one entry per variable -/
 theorem grad_length (poly : Bool) (f : SigT Rat) : (grad poly f).length = f.n := by
   simp [grad]
+
+/-- `evalWith` (the driver's left fold) is `eval` -/
+theorem evalWith_eq_eval (χ : Exp → Rat) (f : SigT Rat) : evalWith χ f = eval χ f.terms :=
+  evalWith_eq_eval' χ f
+
+/-! ### symbolic derivatives, coefficient level -/
+
+/-- ∂/∂x_i of Σ c_a e^{a·x} has coefficient a_i·c_a at exponent a -/
+theorem partialSig_coeff (f : SigT Rat) (hf : Wf f) (i : Nat) (a : Exp) :
+    coeff (partialSig f i).terms a = a.getD i 0 * coeff f.terms a :=
+  partialSig_coeff' f hf i a
+
+theorem partialSig_wf (f : SigT Rat) (hf : Wf f) (i : Nat) : Wf (partialSig f i) ∧ (partialSig f i).n = f.n :=
+  ⟨partialSig_wf' f hf i, partialSig_n f i⟩
+
+def incExp (b : Exp) (i : Nat) : Exp := b.set i (b.getD i 0 + 1)
+
+set_option linter.unusedVariables false in
+/-- ∂/∂x_i of Σ c_a x^a has coefficient (b_i+1)·c_{b+e_i} at exponent b (the formal partial derivative) -/
+theorem partialPoly_coeff (f : SigT Rat) (hf : Wf f) (hp : polyOk f = true) (i : Nat) (hi : i < f.n)
+    (b : Exp) (hb : b.length = f.n) (hbp : isPolyExp b = true) :
+    coeff (partialPoly f i).terms b = (b.getD i 0 + 1) * coeff f.terms (incExp b i) :=
+  partialPoly_coeff' f hf i hi b hb hbp
+
+set_option linter.unusedVariables false in
+theorem partialPoly_wf (f : SigT Rat) (hf : Wf f) (hp : polyOk f = true) (i : Nat) (hi : i < f.n) :
+    Wf (partialPoly f i) ∧ (partialPoly f i).n = f.n ∧ polyOk (partialPoly f i) = true :=
+  ⟨partialPoly_wf' f hf i, partialPoly_n f i, partialPoly_polyOk f hf hp i⟩
+
+/-- mixed partials commute (so the mirrored Hessian is the Hessian), signomials -/
+theorem partialSig_comm (f : SigT Rat) (hf : Wf f) (i j : Nat) (a : Exp) :
+    coeff (partialSig (partialSig f i) j).terms a = coeff (partialSig (partialSig f j) i).terms a := by
+  rw [partialSig_coeff _ (partialSig_wf f hf i).1, partialSig_coeff _ (partialSig_wf f hf j).1,
+    partialSig_coeff f hf, partialSig_coeff f hf]
+  ring
+
+set_option linter.unusedVariables false in
+/-- … and polynomials -/
+theorem partialPoly_comm (f : SigT Rat) (hf : Wf f) (hp : polyOk f = true) (i j : Nat) (hi : i < f.n) (hj : j < f.n)
+    (b : Exp) (hb : b.length = f.n) (hbp : isPolyExp b = true) :
+    coeff (partialPoly (partialPoly f i) j).terms b = coeff (partialPoly (partialPoly f j) i).terms b :=
+  partialPoly_comm' f hf i j hi hj b hb hbp
+
+/-- every entry of `hess` is the iterated partial derivative, in either order -/
+theorem hess_entry (poly : Bool) (f : SigT Rat) (i j : Nat) (hi : i < f.n) (hj : j < f.n) :
+    ((hess poly f).getD i []).getD j (mk 0 []) =
+      (if j ≤ i then partialOf poly (partialOf poly f i) j else partialOf poly (partialOf poly f j) i) :=
+  hess_entry' poly f i j hi hj
+
+/-! ### the grad_val / hess_val formulas are the values of the symbolic derivatives -/
+theorem gradValSig_eq (χ : Exp → Rat) (f : SigT Rat) (hf : Wf f) (i : Nat) (hi : i < f.n) :
+    (gradValSig χ f).getD i 0 = evalWith χ (partialSig f i) :=
+  gradValSig_eq' χ f hf i hi
+
+theorem hessValSig_eq (χ : Exp → Rat) (f : SigT Rat) (hf : Wf f) (i k : Nat) (hi : i < f.n) (hk : k < f.n) :
+    ((hessValSig χ f).getD i []).getD k 0 = evalWith χ (partialSig (partialSig f i) k) :=
+  hessValSig_eq' χ f hf i k hi hk
+
+theorem hessValSig_symm (χ : Exp → Rat) (f : SigT Rat) (i k : Nat) (hi : i < f.n) (hk : k < f.n) :
+    ((hessValSig χ f).getD i []).getD k 0 = ((hessValSig χ f).getD k []).getD i 0 :=
+  hessValSig_symm' χ f i k hi hk
+
+/-! ### shift_coordinates -/
+/-- if `w a = e^{a·x0}` then the shifted signomial evaluated at `x` is `f` evaluated at `x + x0`
+    (`χ' a = χ a · w a` is exactly `e^{a·(x+x0)} = e^{a·x} e^{a·x0}`) -/
+theorem shiftBy_eval (χ χ' w : Exp → Rat) (hw : ∀ a, χ' a = χ a * w a) (f : SigT Rat) (hf : Wf f) :
+    evalWith χ (shiftBy w f) = evalWith χ' f :=
+  shiftBy_eval' χ χ' w hw f hf
+
+/-! ### conversions keep the representation -/
+theorem conv_id (f : SigT Rat) (hf : Wf f) : mk f.n f.terms = f := mk_id' f hf
+
+/-! ### composition -/
+/-- multiplicative on polynomial rows (nonnegative integer exponents) of width `n`: what evaluation at a
+    point `x` is (`monoAt_polyChar`).  (Multiplicativity on ALL rational rows would force `χ ≡ 1` over `Rat`.) -/
+structure IsPolyChar (n : Nat) (χ : Exp → Rat) : Prop where
+  zero : χ (zeroExp n) = 1
+  add : ∀ a b : Exp, a.length = n → b.length = n → isPolyExp a = true → isPolyExp b = true →
+    χ (addExp a b) = χ a * χ b
+
+theorem monoAt_polyChar (x : List Rat) : IsPolyChar x.length (monoAt x) :=
+  ⟨(monoAt_polyChar' x).zero, (monoAt_polyChar' x).add⟩
+
+set_option linter.unusedVariables false in
+/-- `p(z)` evaluates to `Σ_a c_a ∏_i z_i(·)^{a_i}` at every point of the inner variables -/
+theorem compose_eval (nz : Nat) (χ : Exp → Rat) (hχ : IsPolyChar nz χ) (p : SigT Rat) (hp : Wf p) (hpp : polyOk p = true)
+    (zs : List (SigT Rat)) (hz : ∀ z ∈ zs, Wf z ∧ z.n = nz ∧ polyOk z = true) (hlen : zs.length = p.n) (hpos : 0 < p.n)
+    (r : SigT Rat) (hr : compose p zs = some r) :
+    evalWith χ r =
+      (p.terms.map fun t => t.2 * (List.zipWith (fun z ai => (evalWith χ z) ^ ai.num.toNat) zs t.1).prod).sum :=
+  compose_eval' nz χ ⟨hχ.zero, hχ.add⟩ p zs hz r hr
+
+/-- numeric evaluation of a polynomial at a rational point, spelled out:
+    `p(x) = Σ_a c_a ∏_i x_i^{a_i}` -/
+theorem evalWith_monoAt (x : List Rat) (p : SigT Rat) :
+    evalWith (monoAt x) p = (p.terms.map fun t => t.2 * monoAt x t.1).sum :=
+  evalWith_monoAt' x p
+
+/-! ### real analysis: the symbolic partial derivative IS the derivative (signomials) -/
+/-- real evaluation of a rational-coefficient signomial at `x : ℕ → ℝ` (coordinates beyond n unused) -/
+noncomputable def evalR (f : SigT Rat) (x : Nat → ℝ) : ℝ :=
+  (f.terms.map fun t => (t.2 : ℝ) * Real.exp ((t.1.zipIdx.map fun p => (p.1 : ℝ) * x p.2).sum)).sum
+
+set_option linter.unusedVariables false in
+theorem sig_hasDerivAt (f : SigT Rat) (hf : Wf f) (i : Nat) (hi : i < f.n) (x : Nat → ℝ) :
+    HasDerivAt (fun s : ℝ => evalR f (Function.update x i s)) (evalR (partialSig f i) x) (x i) :=
+  sig_hasDerivAt' f hf i x
+
+/-! ### non-vacuity: the hypotheses of the theorems above are satisfiable at `Rat`
+(concrete values are checked by `decide` on the executable model; core `Rat` operations are
+irreducible, hence `with_unfolding_all`) -/
+section NonVacuity
+
+@[instance_reducible] private def decEqSig : DecidableEq (SigT Rat) := fun a b =>
+  match a, b with
+  | ⟨n1, t1⟩, ⟨n2, t2⟩ =>
+    if h : n1 = n2 ∧ t1 = t2 then isTrue (by rw [h.1, h.2])
+    else isFalse (fun e => h (by cases e; exact ⟨rfl, rfl⟩))
+
+attribute [local instance] decEqSig
+
+private theorem grid_of {ts : List (Exp × Rat)} (h : ∀ t ∈ ts, ∀ q ∈ t.1, round7 q = q) :
+    ∀ t ∈ ts, OnGrid t.1 := h
+
+/-- the signomial `3·e^{x₁} − e^{x₂/2} + 2·e^{x₁ + x₂/2}` -/
+private def sEx : SigT Rat := ⟨2, [([1, 0], 3), ([0, 1/2], -1), ([1, 1/2], 2)]⟩
+/-- the polynomial `3·x₁²x₂ + 5·x₁x₂ + 7·x₂³ + 2·x₁` -/
+private def pEx : SigT Rat := ⟨2, [([2, 1], 3), ([1, 1], 5), ([0, 3], 7), ([1, 0], 2)]⟩
+/-- the inner polynomials `x − 1`, `x + 1` -/
+private def z1 : SigT Rat := ⟨1, [([1], 1), ([0], -1)]⟩
+private def z2 : SigT Rat := ⟨1, [([1], 1), ([0], 1)]⟩
+
+private theorem sEx_wf : Wf sEx :=
+  ⟨by decide, grid_of (by with_unfolding_all decide), by with_unfolding_all decide⟩
+private theorem pEx_wf : Wf pEx := ⟨by decide, grid_of (by with_unfolding_all decide), by decide⟩
+private theorem z1_wf : Wf z1 := ⟨by decide, grid_of (by with_unfolding_all decide), by decide⟩
+private theorem z2_wf : Wf z2 := ⟨by decide, grid_of (by with_unfolding_all decide), by decide⟩
+private theorem pEx_poly : polyOk pEx = true := by with_unfolding_all decide
+
+-- signomial derivatives: the term without `x₁` is dropped; coefficients are `a_i · c_a`
+example : partialSig sEx 0 = ⟨2, [([1, 0], 3), ([1, 1/2], 2)]⟩ := by with_unfolding_all decide
+example : partialSig sEx 1 = ⟨2, [([0, 1/2], -1/2), ([1, 1/2], 1)]⟩ := by with_unfolding_all decide
+example : partialSig (partialSig sEx 0) 0 = ⟨2, [([1, 0], 3), ([1, 1/2], 2)]⟩ := by with_unfolding_all decide
+example : partialSig ⟨2, [([0, 1], 4)]⟩ 0 = ⟨2, [([0, 0], 0)]⟩ := by with_unfolding_all decide
+example : coeff (partialSig sEx 1).terms [1, 1/2] = (1/2 : Rat) * coeff sEx.terms [1, 1/2] := by
+  have := partialSig_coeff sEx sEx_wf 1 [1, 1/2]
+  simpa using this
+example : Wf (partialSig sEx 1) ∧ (partialSig sEx 1).n = 2 := partialSig_wf sEx sEx_wf 1
+
+-- polynomial derivatives: rows are decremented and merged in insertion order, coefficients kept
+example : partialPoly pEx 0 = ⟨2, [([1, 1], 6), ([0, 1], 5), ([0, 0], 2)]⟩ := by with_unfolding_all decide
+example : partialPoly pEx 1 = ⟨2, [([2, 0], 3), ([1, 0], 5), ([0, 2], 21)]⟩ := by with_unfolding_all decide
+example : partialPoly (partialPoly pEx 0) 1 = partialPoly (partialPoly pEx 1) 0 := by with_unfolding_all decide
+example : partialPoly ⟨1, [([0], 4)]⟩ 0 = ⟨1, [([0], 0)]⟩ := by with_unfolding_all decide
+example : incExp [1, 1] 0 = [2, 1] := by with_unfolding_all decide
+example : coeff (partialPoly pEx 0).terms [1, 1] = ((1 : Rat) + 1) * coeff pEx.terms (incExp [1, 1] 0) := by
+  have := partialPoly_coeff pEx pEx_wf pEx_poly 0 (by decide) [1, 1] (by decide) (by with_unfolding_all decide)
+  simpa using this
+example : Wf (partialPoly pEx 0) ∧ (partialPoly pEx 0).n = 2 ∧ polyOk (partialPoly pEx 0) = true :=
+  partialPoly_wf pEx pEx_wf pEx_poly 0 (by decide)
+example : coeff (partialPoly (partialPoly pEx 0) 1).terms [1, 0] =
+    coeff (partialPoly (partialPoly pEx 1) 0).terms [1, 0] :=
+  partialPoly_comm pEx pEx_wf pEx_poly 0 1 (by decide) (by decide) [1, 0] (by decide) (by with_unfolding_all decide)
+
+-- gradient / Hessian
+example : grad true pEx = [partialPoly pEx 0, partialPoly pEx 1] := by with_unfolding_all decide
+example : ((hess true pEx).getD 0 []).getD 1 (mk 0 []) = ⟨2, [([1, 0], 6), ([0, 0], 5)]⟩ := by
+  with_unfolding_all decide
+example : ((hess false sEx).getD 0 []).getD 1 (mk 0 []) = partialSig (partialSig sEx 1) 0 := by
+  rw [hess_entry false sEx 0 1 (by decide) (by decide)]
+  rfl
+
+-- grad_val / hess_val against the trivial table (every basis function evaluates to 1)
+example : gradValSig (fun _ => 1) sEx = [5, 1/2] := by with_unfolding_all decide
+example : hessValSig (fun _ => 1) sEx = [[5, 1], [1, 1/4]] := by with_unfolding_all decide
+example : (gradValSig (fun _ => 1) sEx).getD 1 0 = evalWith (fun _ => 1) (partialSig sEx 1) :=
+  gradValSig_eq _ sEx sEx_wf 1 (by decide)
+example : ((hessValSig (fun _ => 1) sEx).getD 0 []).getD 1 0 =
+    evalWith (fun _ => 1) (partialSig (partialSig sEx 0) 1) :=
+  hessValSig_eq _ sEx sEx_wf 0 1 (by decide) (by decide)
+
+-- shift_coordinates with `x0 = ln 4 · (1, 2)` (so `w a = 4^{a·(1,2)}`, exact on half-integer rows)
+example : shiftBy (expAt4 [1, 2]) sEx = ⟨2, [([1, 0], 12), ([0, 1/2], -4), ([1, 1/2], 32)]⟩ := by
+  with_unfolding_all decide
+example : evalWith (fun _ => 1) (shiftBy (expAt4 [1, 2]) sEx) = evalWith (expAt4 [1, 2]) sEx :=
+  shiftBy_eval (fun _ => 1) (expAt4 [1, 2]) (expAt4 [1, 2]) (fun a => by simp) sEx sEx_wf
+example : mk pEx.n pEx.terms = pEx := conv_id pEx pEx_wf
+
+-- numeric evaluation and composition
+example : IsPolyChar 2 (monoAt [2, 3]) := monoAt_polyChar [2, 3]
+example : evalWith (monoAt [2, 3]) pEx = 259 := by with_unfolding_all decide
+private theorem composeEx : compose pEx [z1, z2] = some ⟨1, [([0], 3), ([1], 20), ([2], 23), ([3], 10)]⟩ := by
+  with_unfolding_all decide
+example : compose ⟨2, [([0, 0], 3), ([1, 1], 0), ([1, 0], 1), ([0, 1], -1)]⟩ [z1, z1] =
+    some ⟨1, [([0], 3), ([1], 0)]⟩ := by with_unfolding_all decide
+example : evalWith (monoAt [2]) ⟨1, [([0], 3), ([1], 20), ([2], 23), ([3], 10)]⟩ =
+    (pEx.terms.map fun t => t.2 *
+      (List.zipWith (fun z ai => (evalWith (monoAt [2]) z) ^ ai.num.toNat) [z1, z2] t.1).prod).sum :=
+  compose_eval 1 (monoAt [2]) (monoAt_polyChar [2]) pEx pEx_wf pEx_poly [z1, z2]
+    (by
+      intro z hz
+      simp only [List.mem_cons, List.not_mem_nil, or_false] at hz
+      rcases hz with rfl | rfl
+      · exact ⟨z1_wf, rfl, by with_unfolding_all decide⟩
+      · exact ⟨z2_wf, rfl, by with_unfolding_all decide⟩)
+    rfl (by decide) _ composeEx
+
+-- the real derivative of the example signomial
+example (x : Nat → ℝ) :
+    HasDerivAt (fun s : ℝ => evalR sEx (Function.update x 1 s)) (evalR (partialSig sEx 1) x) (x 1) :=
+  sig_hasDerivAt sEx sEx_wf 1 (by decide) x
+
+end NonVacuity
 
 end Sageopt.Props.C14
